@@ -534,7 +534,8 @@ def _spec_text(name, a):
     raise KeyError(name)
 
 
-TEXTS = ['', 'a', 'abc', 'a-b-c', 'Hello World', '  two  spaces ', 'aaa', 'AbC', '2024/01', 'xyx']
+TEXTS = ['', 'a', 'abc', 'a-b-c', 'Hello World', '  two  spaces ', 'aaa', 'AbC', '2024/01', 'xyx',
+         'tab\tin', ' line\nbreak ', '12\xa0500 ', '\u2003em space']          # whitespace other than the blank is ordinary text
 
 
 def _text_cases(rng, n):
@@ -843,12 +844,22 @@ def _logic_cases(rng, n):
         rows = [tuple(rng.choice([1, 2, -3, 0.5, 'a', True, sh.EMPTY, 4] + ([NA] if rng.random() < 0.05 else [])) for _ in range(m if rng.random() < 0.9 else m + 1))
                 for _ in range(rng.randrange(1, 4))]
         out.append(('sumproduct', 'SUMPRODUCT', [(rng.choice(['range', 'array']), r) for r in rows]))
+    # SUMPRODUCT over two-dimensional operands: equal cell counts but different shapes must give #VALUE!
+    for (r1, c1), (r2, c2) in (((3, 1), (1, 3)), ((1, 3), (3, 1)), ((3, 2), (2, 3)), ((4, 1), (2, 2)), ((2, 2), (2, 2)), ((2, 3), (2, 3)),
+                               ((3, 1), (3, 1)), ((1, 1), (1, 1)), ((2, 2), (4, 1))):
+        for _ in range(2):
+            a = tuple(tuple(rng.choice([1, 2, -3, 0.5, 4]) for _ in range(c1)) for _ in range(r1))
+            b = tuple(tuple(rng.choice([1, 2, -3, 0.5, 4]) for _ in range(c2)) for _ in range(r2))
+            out.append(('sumproduct2d', 'SUMPRODUCT', [a, b]))
     return out
 
 
 def _call(name, args):
+    import numpy as np
     f = _F()[name]
     f = f['function'] if isinstance(f, dict) else f
+    if args and isinstance(args[0], tuple) and args[0] and isinstance(args[0][0], tuple):      # plain 2-D operands
+        return f(*[np.asarray([list(r) for r in a], object) for a in args])
     return f(*_build(args))
 
 
@@ -917,6 +928,10 @@ def _check_logic(case):
     if kind == 'rank':
         want = _spec_rank(name, list(args[0][1]), args[1][1])
         return None if (_eqv(got, want) or got is want) else '%s%r = %r, Excel definition gives %r' % (name, args, got, want)
+    if kind == 'sumproduct2d':
+        a, b = args
+        want = VALUE if (len(a), len(a[0])) != (len(b), len(b[0])) else float(sum(x * y for ra, rb in zip(a, b) for x, y in zip(ra, rb)))
+        return None if (_eqv(got, want) or got is want) else 'SUMPRODUCT(%r, %r) = %r, Excel definition gives %r' % (a, b, got, want)
     if kind == 'sumproduct':
         rows = [list(a[1]) for a in args]
         want = _spec_sumproduct(rows)
